@@ -13,6 +13,7 @@ class Sock:
     def __init__(s, data):
         s.data, s.pos, s.prefix_reads, s.out = data, 0, [], []
         s.body_reads = []
+        s.segments = []
 
 
 class IoErr:
@@ -110,6 +111,33 @@ def mk(docs, job, cfg):
             for c in x.to_vstr(v).c:
                 sock.out.append(c)       # Int-sorted code point (ASCII bound: one byte each)
         return Ok(UNIT)
+    def m_read(x, sock, a, e):
+        """AsyncReadExt::read: returns what has arrived so far -- any n with 1 <= n <= min(buffer, remaining) (0 only at EOF)"""
+        buf = x.deref(a[0])
+        cap = x.concretize(x.buf_len(buf).t)
+        if cap is None:
+            raise Unsupported('read into a buffer of symbolic length')
+        remaining = len(sock.data) - sock.pos
+        if remaining == 0 or cap == 0:
+            return Ok(BV(bv64(0), 64))
+        top = min(cap, remaining)
+        cands = sorted({top, 1, max(1, top // 2)} | (set(range(1, top + 1)) if top <= 6 else set()), reverse=True)
+        n = cands[x.choose(len(cands), 'short_read%d' % sock.pos)]
+        sock.body_reads.append((sock.pos, n, buf))
+        sock.segments.append(sock.pos + n)
+        rest = buf.chunks[0].b[n:] if len(buf.chunks) == 1 and isinstance(buf.chunks[0], Bytes) else [0] * (cap - n)
+        buf.chunks = [Bytes(list(sock.data[sock.pos:sock.pos + n]) + list(rest))]
+        sock.pos += n
+        return Ok(BV(bv64(n), 64))
+
+    def m_truncate(x, r, a, e):
+        b = x.deref(r)
+        n = x.concrete_index(a[0], 1 << 20)
+        items = x.buf_items(b)
+        b.chunks = [Bytes(items[:n])]
+        return UNIT
+    mm[('Sock', 'read')] = m_read
+    mm[('Buffer', 'truncate')] = m_truncate
     mm[('Sock', 'read_exact')] = m_read_exact
     mm[('Sock', 'write_all')] = m_write_all
     mm[('IoErr', 'kind')] = lambda x, r, a, e: ConstV('std::io::ErrorKind::' + r.kind)
@@ -135,8 +163,32 @@ def mk(docs, job, cfg):
         if x.branch(ascii_):
             return Ok(VStr([z3.BV2Int(b.t) for b in items]))
         x.path_flags.add('nonascii')
-        if x.flip('utf8_valid'):
-            return Ok(VStr([z3.BV2Int(b.t) for b in items]))     # content opaque: only framing is judged on such paths
+        # UTF-8 well-formedness automaton (Unicode table 3-7) as a chain of 4-bit state variables
+        S = lambda k: z3.BitVecVal(k, 4)
+        st = S(0)
+        for i, b in enumerate(items):
+            v = b.t
+            rng = lambda lo, hi: z3.And(z3.UGE(v, lo), z3.ULE(v, hi))
+            cont = rng(0x80, 0xBF)
+            from0 = z3.If(z3.ULT(v, 0x80), S(0), z3.If(rng(0xC2, 0xDF), S(1), z3.If(v == 0xE0, S(4), z3.If(v == 0xED, S(5),
+                    z3.If(rng(0xE1, 0xEF), S(2), z3.If(v == 0xF0, S(6), z3.If(rng(0xF1, 0xF3), S(3), z3.If(v == 0xF4, S(7), S(8)))))))))
+            nxt = z3.If(st == 0, from0,
+                  z3.If(st == 1, z3.If(cont, S(0), S(8)),
+                  z3.If(st == 2, z3.If(cont, S(1), S(8)),
+                  z3.If(st == 3, z3.If(cont, S(2), S(8)),
+                  z3.If(st == 4, z3.If(rng(0xA0, 0xBF), S(1), S(8)),
+                  z3.If(st == 5, z3.If(rng(0x80, 0x9F), S(1), S(8)),
+                  z3.If(st == 6, z3.If(rng(0x90, 0xBF), S(2), S(8)),
+                  z3.If(st == 7, z3.If(rng(0x80, 0x8F), S(2), S(8)), S(8)))))))))
+            if z3.is_bv_value(v):
+                st = z3.simplify(nxt)
+            else:
+                sv = x.symbv('utf8_state', 4).t
+                x.solver.add(sv == nxt)
+                st = sv
+        if x.branch(st == 0):
+            # bytes are kept as code points (one per byte): content is judged for framing and char boundaries only
+            return Ok(VStr([z3.BV2Int(b.t) for b in items]))
         return Err(UNIT)
     fn['String::from_utf8'] = f_from_utf8
     fn['String::from_utf8_lossy'] = lambda x, a, e: a[0]
@@ -200,6 +252,26 @@ def mk(docs, job, cfg):
     mm[('Struct:ControllerModel', 'topic_snapshot')] = c_snapshot
     mm[('Struct:ControllerModel', 'get_metrics')] = lambda x, r, a, e: Ok(VStr([z3.IntVal(ord(c)) for c in 'METRICS']))
 
+    old_index = x.e_index
+
+    def e_index(e, env):
+        b = x.deref(x.eval(e['base'], env))
+        if isinstance(b, VStr):
+            r = x.eval(e['index'], env)
+            if isinstance(r, RangeV):
+                for bound in (r.a, r.b):
+                    if bound is None:
+                        continue
+                    k = x.concrete_index(bound, len(b.c) + 1)
+                    if k > len(b.c):
+                        raise Panic('str slice index out of range')
+                    if 0 < k < len(b.c):
+                        cont = z3.And(b.c[k] >= 0x80, b.c[k] <= 0xBF)
+                        if x.sat(cont) and x.branch(cont):
+                            raise Panic('byte index %d is not a char boundary' % k)
+        return old_index(e, env)
+    x.e_index = e_index
+
     def driver(x):
         if conc is not None:
             data = [BV(z3.BitVecVal(b, 8), 8) for b in conc]
@@ -224,7 +296,12 @@ def mk(docs, job, cfg):
         x.in_prefix = True
         x.cur_frame = None
         ctl = Ctl()
-        res = x.deref(x.call(None, 'handle_connection', [sock, Arc(Struct('ControllerModel', {'ctl': ctl}))]))
+        try:
+            res = x.deref(x.call(None, 'handle_connection', [sock, Arc(Struct('ControllerModel', {'ctl': ctl}))]))
+        except Panic as p:
+            m = x.model_values(dict(('b%d' % i, d.t) for i, d in enumerate(data)))
+            return dict(job=job, verdict='cex', detail='the connection task panicked: %s' % p, stream=[m['b%d' % i] for i in range(len(data))] if m else None,
+                        prefix_reads=sock.prefix_reads, responses=0, segments=sorted(set(sock.segments)))
         # ---- oracle (a)+(b): framing and response count (client framing computed from the data independently)
         bounds = []
         p = 0
@@ -315,11 +392,11 @@ def mk(docs, job, cfg):
         if viol:
             m = x.model_values(terms)
             return dict(job=job, verdict='cex', detail=viol, stream=[m['b%d' % i] for i in range(len(data))] if m else None,
-                        prefix_reads=sock.prefix_reads, responses=nresp)
+                        prefix_reads=sock.prefix_reads, responses=nresp, segments=sorted(set(sock.segments)))
         m = x.model_values(terms) if cfg.get('witness', True) else None
         return dict(job=job, verdict='ok', stream=[m['b%d' % i] for i in range(len(data))] if m else None,
                     prefix_reads=sock.prefix_reads, responses=nresp, puts=len(ctl.puts), gets=len(ctl.gets),
-                    flags=sorted(x.path_flags), out_len=len(out))
+                    flags=sorted(x.path_flags), out_len=len(out), segments=sorted(set(sock.segments)))
     # body frames: remember the current frame text for oracle (c)
     old_call_fn = x.call_fn
 
